@@ -85,7 +85,7 @@ var specs = map[string]spec{
 	"C02": {Level: "exploration", Flavours: []string{"sched"}, Shards: 14, QuickB: "100s", ThorB: "15m"},
 	"C03": {Level: "exploration", Flavours: []string{"sched"}, Shards: 14, QuickB: "100s", ThorB: "15m"},
 	"C04": {Level: "model_checking", Flavours: []string{"sched"}, Shards: 14, QuickB: "100s", ThorB: "20m"},
-	"C05": {Level: "fault_enumeration", Flavours: []string{"seq"}, Shards: 14, QuickB: "100s", ThorB: "15m"},
+	"C05": {Level: "fault_enumeration", Flavours: []string{"seq"}, Shards: 14, QuickB: "100s", ThorB: "15m", MemKB: 3 << 20}, // address-space limit: an allocation driven by an unverified size field aborts the worker inside library code, which is attributed to the frame being read
 	"C06": {Level: "fault_enumeration", Flavours: []string{"seqcap"}, Shards: 14, QuickB: "100s", ThorB: "15m", MemKB: 3 << 20},
 	"C07": {Level: "fault_enumeration", Flavours: []string{"seq"}, Shards: 14, QuickB: "100s", ThorB: "15m"},
 	"C08": {Level: "exploration", Flavours: []string{"sched", "seq"}, Shards: 7, QuickB: "100s", ThorB: "15m"},
